@@ -15,6 +15,8 @@ import CookModel.Lemmas.DiagExactComp
 import CookModel.Lemmas.DiagEmptyValue
 import CookModel.Lemmas.DiagAnalysisExact
 import CookModel.Lemmas.DiagSoundDoc
+import CookModel.Lemmas.DiagAnalysisIff
+import CookModel.Lemmas.DiagRefChecksExact
 /-
   C07  Diagnostics are sound, complete and placed on the offending construct.
 
@@ -1664,5 +1666,132 @@ example : (∀ d ∈ C01_exRefsDoc, d.1.ok C01_refsEnv.cs C01_refsEnv.ext = true
     ((C01_exRefsDoc.map (·.1)).filter DocItem.isMeta).length = 0 := by decide
 example : xOK (α := Rat) C01_refsEnv {} [] ⟨none, []⟩ 1 (C01_exRefsDoc.map (fun d => d.1.x)) :=
   rtdr_xOKB _ _ _ _ _ _ (by decide)
+
+/-! ### Analysis stage, exact forms of the one-directional theorems (wave 4)
+
+  Each function below appends a list of diagnostics that is a PURE function of its inputs (given by a
+  definition of the lemma files, named in the statement), and each catalogued kind is in that list IFF
+  its condition holds. -/
+
+/-- **Bad mode value, exactly** (completes `C07_bad_mode_value`).  From every collector state,
+    `RecipeCollector::metadata` on the entry `>> key: value` appends exactly `c07i_metaDiags` (a function
+    of the entry, the extension set and — for the three time keys — the recorded locations of standard
+    keys: for a `[…]` key under MODES at most one of `config-invalid-value` / `config-unknown-key`; for a
+    regular entry at most one of `std-unsupported-value` / `time-overridden`), and a diagnostic of kind
+    `config-invalid-value` is among them IF AND ONLY IF MODES is on, the trimmed key has the form `[…]`
+    (at least two characters), and either the inner key is `define` / `mode` and the value is none of
+    all / default / components / ingredients / steps / text, or the inner key is `duplicate` and the value
+    is none of new / default / reference / ref.  It is then the error (analysis stage) labelled with the
+    value's span, then the key's span. -/
+theorem C07_bad_mode_value_exact (env : Env) (key value : Text) (s : Col α) :
+    (metadataA env key value s).2.diags.toList = s.diags.toList ++ c07i_metaDiags env key value s.metaLocs ∧
+    ((∃ d ∈ c07i_metaDiags env key value s.metaLocs, d.kind = "config-invalid-value") ↔
+      ((env.ext.has Gen.EXT_MODES = true ∧ (key.trimmed env.cs).head? = some '[' ∧
+          (key.trimmed env.cs).getLast? = some ']' ∧ (key.trimmed env.cs).length ≥ 2) ∧
+       (((String.ofList (((key.trimmed env.cs).drop 1).dropLast) = "define" ∨
+            String.ofList (((key.trimmed env.cs).drop 1).dropLast) = "mode") ∧
+          ∀ w ∈ ["all", "default", "components", "ingredients", "steps", "text"],
+            String.ofList (value.outerTrimmed env.cs) ≠ w) ∨
+        (String.ofList (((key.trimmed env.cs).drop 1).dropLast) = "duplicate" ∧
+          ∀ w ∈ ["new", "default", "reference", "ref"], String.ofList (value.outerTrimmed env.cs) ≠ w)))) ∧
+    (∀ d ∈ c07i_metaDiags env key value s.metaLocs, d.kind = "config-invalid-value" →
+      d = ⟨.error, .analysis, "config-invalid-value", [value.span, key.span]⟩) := by
+  obtain ⟨k1, k2⟩ := c07i_metaDiags_invalid_iff env key value s.metaLocs
+  refine ⟨c07i_metadataA_exact env key value s, ?_, k2⟩
+  rw [k1]
+  unfold c07i_badModeValue c07i_isConfigKey
+  simp only [Bool.and_eq_true, beq_iff_eq, decide_eq_true_eq, and_assoc]
+
+/-- **Timer unit checks, exactly** (completes `C07_timer_unit_checks`).  From every collector state the
+    checks on a timer's converted quantity append exactly `c07i_timerCheckDiags` and change nothing else,
+    and (one equivalence per catalogued kind)
+    * `timer-value-text` is raised IFF ADVANCED_UNITS is on and the value is a text;
+    * `timer-unit-unknown` IFF ADVANCED_UNITS is on, there is a unit and the converter does not know it;
+    * `timer-unit-not-time` IFF ADVANCED_UNITS is on, there is a unit, the converter knows it, and its
+      physical quantity is not time;
+    every raised diagnostic is one of these three errors (analysis stage), the first labelled with the
+    value's span, the other two with the unit's span.  (A text value WITH a bad unit gets two errors.)
+    And for the timer EVENT: `timerA` appends exactly `c07i_timerEventDiags` — the scaling-lock warning iff
+    the value carries `=`, then the checks above on the `Fixed` value and the trimmed unit. -/
+theorem C07_timer_unit_checks_exact (env : Env) (q : Loc (PQuantity α)) (r : Quantity (ScalableValue α)) (s : Col α) :
+    (timerQuantityChecks env q r s).2.diags.toList = s.diags.toList ++ c07i_timerCheckDiags env q r ∧
+    (timerQuantityChecks env q r s).2 = { s with diags := (timerQuantityChecks env q r s).2.diags } ∧
+    ((∃ d ∈ c07i_timerCheckDiags env q r, d.kind = "timer-value-text") ↔
+      (env.ext.has Gen.EXT_ADVANCED_UNITS = true ∧ r.value.val.isText = true)) ∧
+    ((∃ d ∈ c07i_timerCheckDiags env q r, d.kind = "timer-unit-unknown") ↔
+      (env.ext.has Gen.EXT_ADVANCED_UNITS = true ∧ ∃ u, r.unit = some u ∧ env.findUnit u = none)) ∧
+    ((∃ d ∈ c07i_timerCheckDiags env q r, d.kind = "timer-unit-not-time") ↔
+      (env.ext.has Gen.EXT_ADVANCED_UNITS = true ∧
+        ∃ u pq, r.unit = some u ∧ env.findUnit u = some pq ∧ pq ≠ env.timeQ)) ∧
+    (∀ d ∈ c07i_timerCheckDiags env q r,
+      (d = ⟨.error, .analysis, "timer-value-text", [q.val.value.value.span]⟩ ∨
+       d = ⟨.error, .analysis, "timer-unit-unknown", [(q.val.unit.map (·.span)).getD ⟨0, 0⟩]⟩ ∨
+       d = ⟨.error, .analysis, "timer-unit-not-time", [(q.val.unit.map (·.span)).getD ⟨0, 0⟩]⟩)) ∧
+    (∀ lt : Loc (PTimer α), (timerA env lt s).2.diags.toList = s.diags.toList ++ c07i_timerEventDiags env lt) := by
+  obtain ⟨h1, h2⟩ := c07i_timerQuantityChecks_exact env q r s
+  obtain ⟨k1, k2, k3, k4⟩ := c07i_timerCheckDiags_kinds env q r
+  exact ⟨h1, h2, k1, k2, k3, k4, fun lt => c07i_timerA_exact env lt s⟩
+
+/-- **The checks of a resolved ingredient reference, exactly** (completes `C07_reference_checks`, which
+    gave membership only).  From every collector state `ingrRefChecks` appends exactly
+    `c07r_ingrRefDiags`: the `incompatible-units` warnings of the ADVANCED_UNITS loop over the definition and
+    its other references (one per table entry whose unit is incompatible — a frame lemma over the `for`
+    loop: the loop reads the tables of the state it started from and only pushes), then `note-in-reference`,
+    then `conflicting-ref-quantity`, then `text-value-in-ref`.  And, one equivalence per kind:
+    * `note-in-reference` is raised IFF the reference carries a note;
+    * `conflicting-ref-quantity` IFF both the reference and the definition have an amount and the
+      definition was made outside a step (components mode);
+    * `text-value-in-ref` IFF both have an amount and exactly one of the two values is a text;
+    * `incompatible-units` IFF ADVANCED_UNITS is on, the reference has an amount, and for the definition
+      or one of the references it lists, the entry exists, has an amount and `compatible_unit` fails. -/
+theorem C07_reference_checks_exact (env : Env) (input : Str) (li : Loc (PIngredient α))
+    (igr : Ingredient (ScalableValue α)) (refTo : Nat) (defn : Ingredient (ScalableValue α))
+    (defLoc : Loc (PIngredient α)) (s : Col α) :
+    (ingrRefChecks env input li igr refTo defn defLoc s).2.diags.toList =
+      s.diags.toList ++ c07r_ingrRefDiags env input li igr refTo defn defLoc s.ingredients s.locIngr ∧
+    ((∃ d ∈ c07r_ingrRefDiags env input li igr refTo defn defLoc s.ingredients s.locIngr,
+        d.kind = "note-in-reference") ↔ li.val.note.isSome = true) ∧
+    ((∃ d ∈ c07r_ingrRefDiags env input li igr refTo defn defLoc s.ingredients s.locIngr,
+        d.kind = "conflicting-ref-quantity") ↔
+      (defn.quantity.isSome = true ∧ igr.quantity.isSome = true ∧ ircDefinedInStep defn = false)) ∧
+    ((∃ d ∈ c07r_ingrRefDiags env input li igr refTo defn defLoc s.ingredients s.locIngr,
+        d.kind = "text-value-in-ref") ↔
+      ∃ rq dq, igr.quantity = some rq ∧ defn.quantity = some dq ∧ rq.value.val.isText ≠ dq.value.val.isText) ∧
+    ((∃ d ∈ c07r_ingrRefDiags env input li igr refTo defn defLoc s.ingredients s.locIngr,
+        d.kind = "incompatible-units") ↔
+      (env.ext.has Gen.EXT_ADVANCED_UNITS = true ∧ ∃ q, igr.quantity = some q ∧
+        ∃ idx ∈ refTo :: defn.relation.relation.referencedFrom, ∃ other otherLoc oq,
+          s.ingredients[idx]? = some other ∧ s.locIngr[idx]? = some otherLoc ∧ other.quantity = some oq ∧
+          compatibleUnit env oq.unit q.unit ≠ none)) := by
+  obtain ⟨k1, k2, k3, k4⟩ := c07r_ingrRefDiags_kinds env input li igr refTo defn defLoc s.ingredients s.locIngr
+  exact ⟨c07r_ingrRefChecks_exact env input li igr refTo defn defLoc s, k1, k2, k3, k4⟩
+
+/-- **… of a resolved cookware reference, exactly** (completes `C07_reference_checks_cookware`):
+    `cwRefChecks` appends exactly `c07r_cwRefDiags` — `note-in-reference` IFF the reference carries a note,
+    `conflicting-ref-quantity` IFF both have an amount and the definition was made outside a step,
+    `text-value-in-ref` IFF both have an amount and exactly one value is a text — in this order. -/
+theorem C07_reference_checks_cookware_exact (input : Str) (lc : Loc (PCookware α)) (cw : Cookware (ScalableValue α))
+    (defn : Cookware (ScalableValue α)) (defLoc : Loc (PCookware α)) (s : Col α) :
+    (cwRefChecks input lc cw defn defLoc s).2.diags.toList = s.diags.toList ++ c07r_cwRefDiags input lc cw defn defLoc ∧
+    ((∃ d ∈ c07r_cwRefDiags input lc cw defn defLoc, d.kind = "note-in-reference") ↔ lc.val.note.isSome = true) ∧
+    ((∃ d ∈ c07r_cwRefDiags input lc cw defn defLoc, d.kind = "conflicting-ref-quantity") ↔
+      (defn.quantity.isSome = true ∧ cw.quantity.isSome = true ∧ crcDefinedInStep defn = false)) ∧
+    ((∃ d ∈ c07r_cwRefDiags input lc cw defn defLoc, d.kind = "text-value-in-ref") ↔
+      ∃ rq dq, cw.quantity = some rq ∧ defn.quantity = some dq ∧ rq.val.isText ≠ dq.val.isText) := by
+  obtain ⟨k1, k2, k3⟩ := c07r_cwRefDiags_kinds input lc cw defn defLoc
+  exact ⟨c07r_cwRefChecks_exact input lc cw defn defLoc s, k1, k2, k3⟩
+
+/-! non-vacuity: `>> [mode]: bogus` under MODES raises exactly the error; `>> [mode]: all` and a plain entry
+    raise nothing; `~{=x%parsec}` under ADVANCED_UNITS with a converter that knows only `min`: lock warning,
+    text value, unknown unit; a reference with a note and a text amount against a numeric definition made in
+    a step: `note-in-reference` then `text-value-in-ref` -/
+example : c07i_metaDiags C01_modesEnv (C01_txt "[mode]" 3) (C01_txt "bogus" 11) [] =
+    [⟨.error, .analysis, "config-invalid-value", [⟨11, 16⟩, ⟨3, 9⟩]⟩] := by decide
+example : c07i_metaDiags C01_modesEnv (C01_txt "[mode]" 3) (C01_txt "all" 11) [] = [] ∧
+    c07i_metaDiags C01_modesEnv (C01_txt "source" 3) (C01_txt "book" 11) [] = [] := by decide
+example : c07i_timerEventDiags (α := Rat) { C07_coreEnv with ext := ⟨Gen.EXT_ADVANCED_UNITS⟩ }
+      ⟨⟨none, some ⟨⟨⟨⟨.text ['x'], ⟨3, 4⟩⟩, some ⟨2, 3⟩⟩, some (C01_txt "parsec" 5)⟩, ⟨2, 11⟩⟩⟩, ⟨0, 12⟩⟩ =
+    [⟨.warning, .analysis, "unnecessary-scaling-lock", [⟨3, 4⟩]⟩, ⟨.error, .analysis, "timer-value-text", [⟨3, 4⟩]⟩,
+     ⟨.error, .analysis, "timer-unit-unknown", [⟨5, 11⟩]⟩] := by decide
 
 end Cook
